@@ -213,15 +213,17 @@ def modelled : List (String × String) := [
   ("slice", "slice_as_list_slice"), ("sequence", "sequence_from_generate_series"),
   ("rint", "rint_from_round"), ("rint", "inline"), ("log1p", "log1p_from_log"), ("expm1", "expm1_from_exp"),
   ("overlay", "overlay_from_substr"), ("array_min", "array_min_from_sort"), ("array_max", "array_max_from_sort"),
-  ("try_element_at", "inline")]
+  ("try_element_at", "inline"),
+  -- Impl/C17Compose.lean
+  ("format_string", "format_string_with_pipes"), ("nanvl", "nanvl_as_case"), ("dayofweek", "inline")]
 
 /-- modelled emulations that live in the default body (no engine branch for DuckDB) -/
-def modelledDefault : List String := ["array_position", "date_add", "date_sub", "locate", "instr", "lpad", "rpad", "substring", "soundex"]
+def modelledDefault : List String := ["array_position", "date_add", "date_sub", "locate", "instr", "lpad", "rpad", "substring", "soundex", "levenshtein"]
 
 /-- DuckDB emulations that are NOT modelled here: compared by value only (stream C), never claimed as proved -/
 def unmodelled : List String := [
-  "e", "skewness", "kurtosis", "collect_set", "first", "isnull", "nanvl", "percentile_approx", "rand", "dayofweek",
-  "to_timestamp", "last_day", "sha2", "base64", "decode", "format_string", "split", "regexp_replace", "array_append",
+  "e", "skewness", "kurtosis", "collect_set", "first", "isnull", "percentile_approx", "rand",
+  "to_timestamp", "last_day", "sha2", "base64", "decode", "split", "regexp_replace", "array_append",
   "create_map", "arrays_overlap", "array_remove", "array_union", "to_json", "any_value", "day", "endswith", "regexp",
   "replace", "to_timestamp_ntz", "to_unix_timestamp", "try_to_timestamp", "unix_micros", "unix_millis"]
 
